@@ -408,14 +408,14 @@ Ltac pres_start s l Hs :=
   dstate s; label_cases l; open_step Hs; guards Hs; injection Hs as <-; gfacts.
 
 
-(* the labels in four parts (one proof file per group and part) *)
+(* the labels in six parts (one proof file per group and part) *)
 Definition part (l : label) : nat :=
   match thread_of l, exec_label l with
   | THome, true => 1
   | TFinal, _ => 1
   | THome, false => 2
   | THandle, _ => 3
-  | TWaker, _ => 4
+  | TWaker, _ => match l with WSched (ARetry | AEarly | ALoad) => 5 | WSched _ => 6 | _ => 4 end
   end.
 
 Ltac pres_start_part s l Hs Hp :=
